@@ -1,6 +1,7 @@
 #!/bin/bash
 # Detection matrix: run the related checks against every seeded change, on a private copy of the repository
 # (meant for `vp run --with-repo -- bin/matrix.sh`; never touches /repo).  Output: one line per (change, check).
+export VERIF_EVIDENCE_DIR=${VERIF_EVIDENCE_DIR:-/verif/.work/evidence-scratch}   # never overwrite the committed evidence
 REPO=${VP_RUN_REPO:-}
 [ -n "$REPO" ] && [ "$REPO" != "/repo" ] || { echo "needs VP_RUN_REPO (vp run --with-repo)"; exit 2; }
 export VERIF_REPO=$REPO
